@@ -15,6 +15,7 @@ import (
 	_ "verif/checks/c01"
 	_ "verif/checks/c03"
 	_ "verif/checks/c06"
+	_ "verif/checks/c07"
 	_ "verif/checks/c09"
 )
 
